@@ -480,6 +480,7 @@ def hdChar (cls i : Nat) : Char :=
   | 1 => Char.ofNat (0xC0 + (i * 5) % 0x80)
   | 2 => Char.ofNat (0x6771 + (i * 3) % 200)
   | 3 => Char.ofNat (0x1F600 + i % 60)
+  | 5 => if i % 5 = 3 then '\\' else asciiTab.getD ((i * 7 + i / 13) % 50) 'a'
   | _ => asciiTab.getD ((i * 7 + i / 13) % 50) 'a'
 
 /-- here-document body of `n` characters in lines of `ll` characters (the last one a newline) -/
@@ -498,9 +499,18 @@ def firstLine (b : List UInt8) : List UInt8 :=
   | (l, []) => l
   | (l, _ :: _) => l ++ [10]
 
+/-- `while IFS= read l; do echo "$l"; done`: every complete logical line, backslashes processed -/
+def nonRawLoop : Nat → List UInt8 → List UInt8
+  | 0, _ => []
+  | fuel + 1, input =>
+    match readBuiltin false input with
+    | (0, v, rest) => v ++ [10] ++ nonRawLoop fuel rest
+    | _ => []
+
 /-- what the reader writes to /out, given the bytes it found on its standard input -/
 def readerOut (rd : String) (k : Nat) (b : List UInt8) : List UInt8 :=
   match rd with
+  | "nr" => nonRawLoop (b.length + 1) b
   | "mix" => if b.isEmpty then [10] else b
   | "stop" => if b.isEmpty then [10] else firstLine b
   | "head" => b.take k
@@ -548,12 +558,99 @@ def runHd (ws : List String) : String :=
     | some x => showBytes x
     | none => "seek-error") ++ "\t=" ++ showBytes spec
 
+/-! ### lowered descriptor limit (`lim` cases): EMFILE from `pipe()` / `open_tmpfile()` -/
+
+/-- `pipe()` under the soft limit `lim` (`Process::open_fd`: a descriptor must be below the limit;
+    when the second allocation fails the first descriptor is closed again) -/
+def alloc2Lim (t : Table) (lim : Nat) : Option (Fd × Fd) :=
+  let (r, w) := alloc2 t
+  if r < lim && w < lim then some (r, w) else none
+
+/-- a `k`-stage pipeline under the limit: `none` = `shift` failed at some member (exit status 126) -/
+def pipeRunLim (t : Table) (k lim : Nat) : Option Unit :=
+  let rec go (i fuel : Nat) (ps : PipeSet) (t : Table) : Option Unit :=
+    match fuel with
+    | 0 => some ()
+    | fuel + 1 =>
+      if i + 1 < k then
+        match alloc2Lim (ps.shiftClose t).2 lim with
+        | none => none
+        | some (r, w) =>
+          let (ps', t') := ps.shiftOpen t (i + 1) r w
+          go (i + 1) fuel ps' t'
+      else some ()
+  go 0 k {} t
+
+def runLim (ws : List String) : String :=
+  let n := kvNat ws "n"
+  let p := payload n (kvNat ws "pat") 0 (kvNat ws "nl")
+  let form := (kv ws "form").getD "subst"
+  let lim := kvNat ws "lim"
+  -- descriptor 3 is the consumer's file (`exec 3>/out` before the prologue)
+  let t0 : Table := (initTable (kvNat ws "pro")).set 3 (some .file)
+  let tr (x : List Byte) : List Byte := (transfer 23 0 0 x).getD []
+  let (st, value) : Nat × List Byte :=
+    match form with
+    | "subst" =>
+      match alloc2Lim t0 lim with
+      | none => (2, [])                       -- CommandSubstError: the shell exits with 2
+      | some _ => (0, substValue (tr p))
+    | "nest" =>
+      match alloc2Lim t0 lim with
+      | none => (2, [])
+      | some (r, w) =>
+        match substChild (t0.pipe 1 r w) r w with
+        | none => (2, [])
+        | some c =>
+          match alloc2Lim c lim with
+          | none => (2, [])                   -- the child exits with 2 before `echo` runs
+          | some _ => (0, substValue (tr (substValue (tr p) ++ [10])))
+    | "pipe2" | "pipe3" | "pipe4" =>
+      let k := if form == "pipe2" then 2 else if form == "pipe3" then 3 else 4
+      match pipeRunLim t0 k lim with
+      | none => (126, [])                     -- "cannot connect pipes": Interrupt(NOEXEC)
+      | some _ => (0, stages tr (k - 1) p)
+    | "here" =>
+      -- a built-in's redirection first saves the target (if open) at a descriptor ≥ 10, then
+      -- `here_doc::open_fd` needs a descriptor for the temporary file
+      let t1 := if (t0 0).isSome then
+          let s := t0.minUnused 64 10
+          if s < lim then some (t0.set s (some .file)) else none
+        else some t0
+      match t1 with
+      | none => (2, [])
+      | some t1 => if t1.minUnused 64 0 < lim then (0, p ++ [10]) else (2, [])
+    | _ => (99, [])
+  s!"st={st} {showFlow value}\t-"
+
+/-! ### the `read` built-in on a pipe (`rd` cases) -/
+
+/-- one line of `n` ASCII letters; `bad` = 1: byte 0xFF in the middle, 2: no newline but a lone lead
+    byte E6 at the end, 3: a NUL in the middle, 4: a backslash in the middle, 5: no newline at all -/
+def rdPayload (n bad : Nat) : List UInt8 :=
+  let body : List UInt8 := (List.range n).map fun i =>
+    if i = n / 2 ∧ bad = 1 then 255 else if i = n / 2 ∧ bad = 3 then 0 else if i = n / 2 ∧ bad = 4 then 92
+    else UInt8.ofNat (alpha 97 i 7)
+  if bad = 2 then body ++ [0xE6] else if bad = 5 then body else body ++ [10]
+
+def runRd (ws : List String) : String :=
+  let p := rdPayload (kvNat ws "n") (kvNat ws "bad")
+  let raw := kvNat ws "raw" != 0
+  -- the bytes reach the built-in through a pipe (as `Nat` bytes in the transfer model)
+  let viaPipe := ((transfer 29 0 0 (p.map (·.toNat))).getD []).map UInt8.ofNat
+  let (st, v, _) := readBuiltin raw viaPipe
+  let out := (toString st).toUTF8.toList ++ [58] ++ v ++ [10]
+  let (st', v', _) := readBuiltin raw p
+  showBytes out ++ "\t=" ++ showBytes ((toString st').toUTF8.toList ++ [58] ++ v' ++ [10])
+
 def runLine (line : String) : String :=
   match words line with
   | "xfer" :: ws => runXfer ws
   | "sh" :: ws => runSh ws
   | "fd" :: ws => runFd ws
   | "hd" :: ws => runHd ws
+  | "lim" :: ws => runLim ws
+  | "rd" :: ws => runRd ws
   | _ => runOps line
 
 def main : IO Unit := mainLoop runLine
